@@ -133,8 +133,19 @@ func singleFaults(bar *colarspb.BatchArrowRecords, signal string, retired []stri
 func (r *run) runFaults() {
 	t := r.tape
 	hp := &histPlan{inDomain: true}
-	hp.signals = []string{[]string{"traces", "logs", "metrics"}[t.Draw(core.Cfg, 3)]}
-	signal := hp.signals[0]
+	all := []string{"traces", "logs", "metrics"}
+	first := t.Draw(core.Cfg, 3)
+	hp.signals = []string{all[first]}
+	// one stream in three carries two or three signals: the consumer then holds
+	// readers of other signals' payload types (and of the attribute sub-streams
+	// the signals share) when the damaged batch arrives
+	switch t.Weighted(core.Cfg, 4, 1, 1) {
+	case 1:
+		hp.signals = []string{all[first], all[(first+1)%3]}
+	case 2:
+		hp.signals = all
+	}
+	signal := "" // the signal of the target batch, known once it is generated
 	opt := defaultOptions()
 	if t.Chance(core.Cfg, 1, 3) {
 		opt = drawOptions(t, true)
@@ -142,7 +153,7 @@ func (r *run) runFaults() {
 	for k, v := range opt.Features() {
 		r.feats[k] = v
 	}
-	r.feats["signals"] = signal
+	r.feats["signals"] = strings.Join(hp.signals, "+")
 	nPrefix := t.Weighted(core.Gen, 2, 3, 3, 2, 2, 1, 1, 1, 1)
 	nSuffix := t.Weighted(core.Gen, 2, 3, 2, 1, 1)
 	hp.nBatches = nPrefix + 1 + nSuffix
@@ -152,9 +163,10 @@ func (r *run) runFaults() {
 	producer := arrow_record.NewProducerWithOptions(opt.build(nil, nil)...)
 	defer func() { _ = producer.Close() }()
 	type enc struct {
-		bar   *colarspb.BatchArrowRecords
-		want  []Item
-		items int
+		bar    *colarspb.BatchArrowRecords
+		want   []Item
+		items  int
+		signal string
 	}
 	var stream []enc
 	// ids retired by the producer before the target batch
@@ -166,7 +178,7 @@ func (r *run) runFaults() {
 		if i == nPrefix && b.items == 0 {
 			// the target batch should carry something
 			g := &G{t: t, InDomain: true, Bare: hp.bare}
-			switch signal {
+			switch b.signal {
 			case "traces":
 				b.td = g.Traces()
 			case "logs":
@@ -196,7 +208,10 @@ func (r *run) runFaults() {
 				current[p.Type] = p.SchemaId
 			}
 		}
-		stream = append(stream, enc{bar: bar, want: want, items: len(want)})
+		if i == nPrefix {
+			signal = b.signal
+		}
+		stream = append(stream, enc{bar: bar, want: want, items: len(want), signal: b.signal})
 		r.sig.Str(b.kind).Int(int64(len(bar.ArrowPayloads)))
 	}
 	if len(retired) > 2 {
@@ -210,7 +225,7 @@ func (r *run) runFaults() {
 		c := arrow_record.NewConsumer()
 		defer func() { _ = c.Close() }()
 		for i := 0; i < nPrefix; i++ {
-			got, _, err, pan := decode(c, signal, cloneBar(stream[i].bar))
+			got, _, err, pan := decode(c, stream[i].signal, cloneBar(stream[i].bar))
 			if pan != "" || err != nil || DiffItems(stream[i].want, got) != "" {
 				if len(fs) == 0 {
 					r.violate("C07", "healthy-decodes", fmt.Sprintf("batch %d of the fault-free prefix: err=%v panic=%q diff=%s", i, err, pan, DiffItems(stream[i].want, got)))
@@ -278,7 +293,7 @@ func (r *run) runFaults() {
 		}
 		_ = err
 		for i := nPrefix + 1; i < len(stream); i++ {
-			_, _, ferr, pan := decode(c, signal, cloneBar(stream[i].bar))
+			_, _, ferr, pan := decode(c, stream[i].signal, cloneBar(stream[i].bar))
 			if pan == "" && ferr != nil {
 				r.probe("later_batch_rejected")
 			}
